@@ -77,20 +77,19 @@ unsigned long long content_of(const osmium::OSMObject& o) {
     return v ? std::strtoull(v, nullptr, 10) : 0ULL;
 }
 
-// "<id>:<content>:<1 iff bytewise identical to the input object>"
-std::string describe(Ctx& ctx, char kind, const osmium::OSMObject* obj) {
+// "<id>:<content>:1" if the object returned for (kind, id) is bytewise identical to the input
+// object with that id (only then is it parsed); "?:?:0" otherwise — memory that is not known to
+// be a valid object is never interpreted (a dangling pointer may point at anything).
+std::string describe(Ctx& ctx, char kind, long long id, const osmium::OSMObject* obj) {
     if (!obj) {
         return "-";
     }
-    std::string out = std::to_string(obj->id()) + ":" + std::to_string(content_of(*obj)) + ":";
-    const auto it = ctx.input_bytes.find({kind, obj->id()});
-    bool same = false;
-    if (it != ctx.input_bytes.end() && kind_char(obj->type()) == kind) {
-        same = it->second.size() == obj->byte_size() &&
-               std::memcmp(it->second.data(), obj->data(), obj->byte_size()) == 0;
+    const auto it = ctx.input_bytes.find({kind, id});
+    if (it == ctx.input_bytes.end() ||
+        std::memcmp(it->second.data(), reinterpret_cast<const char*>(obj), it->second.size()) != 0) {
+        return "?:?:0";
     }
-    out += same ? "1" : "0";
-    return out;
+    return std::to_string(obj->id()) + ":" + std::to_string(content_of(*obj)) + ":1";
 }
 
 void write_output(osmium::memory::Buffer& buffer, std::size_t wr) {
@@ -137,7 +136,7 @@ public:
             ev += k;
             ev += std::to_string(member.ref());
             ev += "=";
-            ev += obj == obj2 ? describe(*ctx, k, obj) : std::string{"accessor-mismatch"};
+            ev += obj == obj2 ? describe(*ctx, k, member.ref(), obj) : std::string{"accessor-mismatch"};
         }
         ctx->events.push_back(ev);
         write_output(this->buffer(), ctx->wr);
@@ -185,7 +184,7 @@ public:
             ev += kind_char(member.type());
             ev += std::to_string(member.ref());
             ev += "=";
-            ev += i < ways.size() ? describe(*m_config.ctx, 'w', ways[i]) : std::string{"missing-way"};
+            ev += i < ways.size() ? describe(*m_config.ctx, 'w', member.ref(), ways[i]) : std::string{"missing-way"};
             ++i;
         }
         if (i != ways.size()) {
@@ -335,7 +334,7 @@ std::string run_history(TManager& manager, Ctx& ctx, bool report_not_in, bool us
             } else if (op.hint == 'x') {
                 ev += "W";
             } else {
-                ev += describe(ctx, op.kind, obj);
+                ev += describe(ctx, op.kind, op.id, obj);
             }
             ctx.events.push_back(ev);
         }
